@@ -212,10 +212,11 @@ def pushColon (s : PS) (t : Tok) (alt : TokType) : Tok × PS :=
   (t', { scan := { rest := colon :: s.scan.rest, line := s.scan.line, col := s.scan.col - 1, lastType := alt }, tok := some t' })
 
 /-- TRIM_TOKEN(scanner, n) followed by a new token type: the units of the token text after the first `n` go back to the
-    input (the column is NOT adjusted, as in the C) -/
+    input, and their characters are taken out of the column again (since 68c62f8) -/
 def trimTok (s : PS) (t : Tok) (n : Nat) (ty : TokType) : Tok × PS :=
   let t' : Tok := { t with ty := ty, text := t.text.take n }
-  (t', { scan := { s.scan with rest := t.text.drop n ++ s.scan.rest, lastType := ty }, tok := some t' })
+  (t', { scan := { s.scan with rest := t.text.drop n ++ s.scan.rest, col := s.scan.col - countChar32 (t.text.drop n), lastType := ty },
+         tok := some t' })
 
 def altOf (ty : TokType) : TokType := if ty = .tkey then .tvalue else .qvalue
 
@@ -299,7 +300,8 @@ mutual
       | .value =>
         if t.text.head? = some colon then do
           report CIF_NULL_KEY s.scan.line (s.scan.col - t.text.length)
-          let s := if t.text.length > 1 then (trimTok s t 1 .value).2 else s
+          -- since 4804559 the trimmed token is a KEY: the value may follow the colon directly
+          let s := if t.text.length > 1 then (trimTok s t 1 .key).2 else s
           tableEntry o fuel (consume s) acc none
         else match colonIdx t.text with
           | some i => do
@@ -325,10 +327,14 @@ mutual
   def tableEntry (o : Opts) : Nat → PS → List (Str × Str × V) → Option Str → P (List (Str × Str × V) × PS)
     | 0, _, _, _ => fail NOFUEL
     | fuel + 1, s, acc, key => do
-      -- cif_value_set_item_by_key(table, key, NULL): cif_normalize_table_index refuses disallowed characters
-      match key with
-      | some k => if hasDisallowed k then fail CIF_INVALID_INDEX else pure ()
-      | none => pure ()
+      -- cif_value_set_item_by_key(table, key, NULL): cif_normalize_table_index refuses disallowed characters; since 8375485
+      -- that is reported (CIF_INVALID_INDEX) and recovered from by dropping the entry: the value is parsed as for a NULL key
+      let key ← match key with
+        | some k => if hasDisallowed k then do
+                      report CIF_INVALID_INDEX s.scan.line s.scan.col
+                      pure none
+                    else pure (some k)
+        | none => pure none
       let (t, s) ← nextTok o s
       if isValueStart t.ty then do
         let (v, s) ← parseValue o fuel s
